@@ -180,19 +180,25 @@ def pre_token(pre):
         return 'E'
     return '/'.join('%d:%s' % (k, ','.join(map(str, v))) for k, v in pre.items())
 
-def encode(case, pre=None):
+def has_brace(case):
+    return any(f in ('python-brace', 'perl-brace') for f in case['formats'])
+
+def encode(case, pre=None, raw=False):
+    """`raw`: op `runs` - every string as code points, the brace kinds are parsed by the model itself (C13's parser models
+    composed with the comparators); otherwise the brace kinds carry the signature extracted from the real parser object"""
     from lib.check.msgrepr import message_repr
+    str_tok = (lambda name, s: H.hexs(s)) if raw else str_token
     msg = FakeMessage(case)
     fl = flags_of(case)
     rmax = 'inf' if fl.range_max == 1e999 else str(fl.range_max)
-    parts = ['fmtcheck', 'run', '1' if case['template'] else '0', '1' if case['encoding'] else '0',
+    parts = ['fmtcheck', 'runs' if raw else 'run', '1' if case['template'] else '0', '1' if case['encoding'] else '0',
              pre if pre is not None else pre_token(case['preimage']), '1' if case['fuzzy'] else '0', str(fl.range_min), rmax,
              H.hexs(str(message_repr(msg, template='{}:'))), H.hexs(str(message_repr(msg))), str(len(case['formats']))]
     for name in case['formats']:
-        parts += [H.hexs(name), str_token(name, msg.msgid), 'N' if msg.msgid_plural is None else str_token(name, msg.msgid_plural),
-                  str_token(name, msg.msgstr), str(len(msg.msgstr_plural))]
+        parts += [H.hexs(name), str_tok(name, msg.msgid), 'N' if msg.msgid_plural is None else str_tok(name, msg.msgid_plural),
+                  str_tok(name, msg.msgstr), str(len(msg.msgstr_plural))]
         for i, s in msg.msgstr_plural.items():
-            parts += [str(i), str_token(name, s)]
+            parts += [str(i), str_tok(name, s)]
     return ' '.join(parts)
 
 # ----------------------------------------------------------------------------------------------- get_last_integer_conversion
@@ -337,11 +343,11 @@ def run_e2e(cases, pf, template, charset, workdir):
         outs[0] += ';STRAY:' + ','.join(stray)
     return outs, per
 
-def encode_e2e(case, pf):
+def encode_e2e(case, pf, raw=False):
     c = dict(case)
     c['range'] = effective_range(case['range'])
     pre = 'N' if pf is None else 'H:' + H.hexs(pf)
-    return encode(c, pre=pre)
+    return encode(c, pre=pre, raw=raw)
 
 # ----------------------------------------------------------------------------------------------- the reference (falsifier)
 #
